@@ -7,9 +7,15 @@
    flagged mutable was allocated by the accumulation itself.  (The sum it holds
    is C11's theorem.)  Derivative rules are assumed not to write their
    arguments (rule contract; validated for the built-in rules by running every
-   check with read-only inputs).  That a VJP/JVP function can be called any
-   number of times with the same result is tied by the correspondence run
-   (repeated, permuted calls; snapshots of earlier results). *)
+   check with read-only inputs).  PROVED for the WHOLE backward pass
+   (Engine/HeapPass.v: the loop of core.backward_pass over the heap model, rules
+   that may return their own cotangent, any pre-existing buffer or fresh arrays):
+   the pass with in-place accumulation returns exactly what the pure pass
+   returns, every buffer that existed before it is unchanged, and a second call
+   - same or different cotangent, wherever it is stored - returns the answer it
+   would give as the only call.  On the implementation, repeated and permuted
+   calls and snapshots of earlier results are compared by the correspondence
+   run. *)
 From Coq Require Import List Arith Ring.
 Import ListNotations.
 From AG Require Import VSpace VSpaceProof Index Heap.
@@ -29,6 +35,36 @@ Theorem C10_preexisting_memory_unchanged :
     forall r, r < length h -> read K h' r = read K h r.
 Proof. exact accumulate_from_nothing_preserves_everything. Qed.
 Print Assumptions C10_preexisting_memory_unchanged.
+
+(* the whole backward pass: refinement of the pure pass + frame, and repetition *)
+From AG Require Import HeapPass.
+Theorem C10_backward_pass_refines_pure_pass_and_preserves_memory :
+  forall (K : Type) (k0 : K) (kadd : K -> K -> K) (n : nat) (parents : nat -> list nat)
+         (ruleh : nat -> Heap.heap K -> nat -> list hcontrib * Heap.heap K) (rulep : nat -> list K -> list (contrib K))
+         (h0 : Heap.heap K) (order : list nat) (e g : nat),
+    rule_ok K ruleh rulep h0 -> g < length h0 ->
+    match backward_h K k0 kadd n parents ruleh order e g h0 with
+    | Some (v, h') => backward_p K k0 kadd n parents rulep order e (read K h0 g) = Some v
+                      /\ (forall r, r < length h0 -> read K h' r = read K h0 r) /\ length h0 <= length h'
+    | None => backward_p K k0 kadd n parents rulep order e (read K h0 g) = None
+    end.
+Proof. exact backward_pass_refines_pure_and_preserves_memory. Qed.
+Print Assumptions C10_backward_pass_refines_pure_pass_and_preserves_memory.
+
+Theorem C10_second_call_as_if_only_call :
+  forall (K : Type) (k0 : K) (kadd : K -> K -> K) (n : nat) (parents : nat -> list nat)
+         (ruleh : nat -> Heap.heap K -> nat -> list hcontrib * Heap.heap K) (rulep : nat -> list K -> list (contrib K))
+         (h0 : Heap.heap K) (order : list nat) (e g g2 : nat) (v1 : list K) (h1 : Heap.heap K),
+    rule_ok K ruleh rulep h0 -> g < length h0 ->
+    backward_h K k0 kadd n parents ruleh order e g h0 = Some (v1, h1) -> g2 < length h1 ->
+    match backward_h K k0 kadd n parents ruleh order e g2 h1 with
+    | Some (v2, h2) => backward_p K k0 kadd n parents rulep order e (read K h1 g2) = Some v2
+                       /\ (forall r, r < length h1 -> read K h2 r = read K h1 r)
+                       /\ (g2 = g -> v2 = v1)
+    | None => backward_p K k0 kadd n parents rulep order e (read K h1 g2) = None
+    end.
+Proof. exact second_call_as_if_only_call. Qed.
+Print Assumptions C10_second_call_as_if_only_call.
 
 (* the same array arriving twice, then a sparse contribution reading it *)
 From Coq Require Import ZArith.
